@@ -260,6 +260,12 @@ func runOne(r *sim.Run) {
 			return
 		}
 	}
+	if r.Prop == "C35" && t.Prob(1, 6, "full_spec_disputes_probe") {
+		fullSpecDisputesProbe(r)
+		if r.Violated() {
+			return
+		}
+	}
 	ru.g = mkGenesis(t)
 	if ru.g.specialIDs > 0 {
 		r.Count("probe:service_id_with_special_octets", int64(ru.g.specialIDs))
@@ -275,6 +281,9 @@ func runOne(r *sim.Run) {
 	}
 	if ru.g.longLived {
 		r.Count("probe:genesis_is_a_snapshot_of_a_long_lived_chain", 1)
+	}
+	if ru.g.populous > 0 {
+		r.Count("probe:populous_genesis_state", 1)
 	}
 	if ru.g.deepChain > 0 {
 		r.Count("probe:deep_dependency_chain_in_ready_queue", 1)
